@@ -46,6 +46,14 @@ def streams(tier, seed):
     md = 3 if tier == "quick" else 4
     cases = c01.gen_cases(rng, n - n // 3, md, p_rep=0.25, max_children=4) + c01.gen_cases(rng, n // 3, md, max_children=4, p_shuffle=1.0, p_rep=0.1, p_through=0.25)
     for c in cases:
+        if rng.random() < 0.2:
+            # fidelities / success probabilities: small exact decimals (1e-06, 2.5e-07, 0.0025) on several leaves, multiplied up the
+            # hierarchy -- the parent's value is the product of the children's to 15 SIGNIFICANT digits, also far below one
+            leaves = [nd for nd, _ in H._nodes(c["routine"]) if not nd["children"] and not any(x["name"] == "fid" for x in nd["resources"])]
+            c["relative"] = bool(leaves)
+            for nd in leaves[:3]:
+                num, den = rng.choice([(1, 10 ** 6), (123456789, 10 ** 15), (987654321, 10 ** 14), (31415926535, 10 ** 16), (1, 400)])
+                nd["resources"].append({"name": "fid", "type": rng.choice(["multiplicative", "multiplicative", "additive"]), "value": ["n", num, den, "float"]})
         strip_types_clash(c["routine"])
     st = c01.mk_stream(lib.load_corpus(PROP, "hier-resources") + cases, "check_accumulate")
     st["name"] = "hier-resources"
